@@ -620,24 +620,33 @@ func newFileStore(path string, autoFlushCache bool) (*fileStore, error) {
 		file:           file,
 		mtx:            sync.RWMutex{},
 	}
-	if autoFlushCache {
-		fs.tickerDone = make(chan bool)
-		fs.ticker = time.NewTicker(pageFlushInterval)
-		go func() {
-			for {
-				select {
-				case <-fs.tickerDone:
-					return
-				case <-fs.ticker.C:
-					if err := fs.flushPages(); err != nil {
-						fmt.Printf("error flushing pages: %s", err.Error())
-					}
-				}
-			}
-		}()
-	}
 	verifStoreOpened(fs)
 	return fs, nil
+}
+
+// startFlusher starts the periodic page flush of a store that was created
+// with autoFlushCache. It runs once the header has been read (see open): a
+// flush writes the header back, so a flusher started earlier could overwrite
+// the header on disk with the zero values of a store that is still being
+// opened.
+func (fs *fileStore) startFlusher() {
+	if !fs.autoFlushCache || fs.ticker != nil {
+		return
+	}
+	fs.tickerDone = make(chan bool)
+	fs.ticker = time.NewTicker(pageFlushInterval)
+	go func() {
+		for {
+			select {
+			case <-fs.tickerDone:
+				return
+			case <-fs.ticker.C:
+				if err := fs.flushPages(); err != nil {
+					fmt.Printf("error flushing pages: %s", err.Error())
+				}
+			}
+		}
+	}()
 }
 
 type fileStore struct {
@@ -673,7 +682,7 @@ func (f *fileStore) unlockExclusive() {
 func (f *fileStore) close() error {
 	verifStoreClosed(f)
 	defer f.file.Close()
-	if f.autoFlushCache {
+	if f.ticker != nil {
 		f.ticker.Stop()
 		f.tickerDone <- true
 	}
@@ -799,6 +808,7 @@ func (f *fileStore) open() error {
 	if err := binary.Read(f.file, binary.LittleEndian, &f._nextLSN); err != nil {
 		return err
 	}
+	f.startFlusher()
 	return nil
 }
 
